@@ -65,6 +65,10 @@ _OOO_NAMESPACES = {
     "xsi": "http://www.w3.org/2001/XMLSchema-instance",
 }
 _NUMBER_COLUMNS_REPEATED = "{" + _OOO_NAMESPACES["table"] + "}number-columns-repeated"
+_TEXT_C = "{" + _OOO_NAMESPACES["text"] + "}c"
+_TEXT_LINE_BREAK = "{" + _OOO_NAMESPACES["text"] + "}line-break"
+_TEXT_S = "{" + _OOO_NAMESPACES["text"] + "}s"
+_TEXT_TAB = "{" + _OOO_NAMESPACES["text"] + "}tab"
 
 
 def _excel_cell_value(cell, datemode):
@@ -212,6 +216,48 @@ def _findall(element, xpath, namespaces):
     return result
 
 
+def _ods_repeat_count(element, attribute_name, location):
+    """
+    The value of the ODS repeat count ``attribute_name`` of ``element``, which defaults to 1.
+
+    :raises cutplace.errors.DataFormatError: if the count is not an integer number greater than 0
+    """
+    repeated_text = element.attrib.get(attribute_name, "1")
+    name = attribute_name.replace("{" + _OOO_NAMESPACES["table"] + "}", "table:").replace(
+        "{" + _OOO_NAMESPACES["text"] + "}", "text:"
+    )
+    try:
+        result = int(repeated_text)
+    except ValueError:
+        raise errors.DataFormatError(
+            "%s is %s but must be an integer" % (name, _compat.text_repr(repeated_text)), location
+        )
+    if result < 1:
+        raise errors.DataFormatError(
+            "%s is %s but must be at least 1" % (name, _compat.text_repr(repeated_text)), location
+        )
+    return result
+
+
+def _ods_text(element, location):
+    """
+    The text of the ODS paragraph ``element`` including the text of nested elements like ``<text:span>``
+    and the white space represented by ``<text:s>``, ``<text:tab>`` and ``<text:line-break>``.
+    """
+    parts = [element.text or ""]
+    for child in element:
+        if child.tag == _TEXT_S:
+            parts.append(" " * _ods_repeat_count(child, _TEXT_C, location))
+        elif child.tag == _TEXT_TAB:
+            parts.append("\t")
+        elif child.tag == _TEXT_LINE_BREAK:
+            parts.append("\n")
+        else:
+            parts.append(_ods_text(child, location))
+        parts.append(child.tail or "")
+    return "".join(parts)
+
+
 def ods_rows(source_ods_path, sheet=1):
     """
     Rows stored in ODS document ``source_ods_path`` in ``sheet``.
@@ -263,24 +309,9 @@ def ods_rows(source_ods_path, sheet=1):
     for table_row in _findall(table_element, "table:table-row", namespaces=_OOO_NAMESPACES):
         row = []
         for table_cell in _findall(table_row, "table:table-cell", namespaces=_OOO_NAMESPACES):
-            repeated_text = table_cell.attrib.get(_NUMBER_COLUMNS_REPEATED, "1")
-            try:
-                repeated_count = int(repeated_text)
-                if repeated_count < 1:
-                    raise errors.DataFormatError(
-                        "table:number-columns-repeated is %s but must be at least 1" % _compat.text_repr(repeated_text),
-                        location,
-                    )
-            except ValueError:
-                raise errors.DataFormatError(
-                    "table:number-columns-repeated is %s but must be an integer" % _compat.text_repr(repeated_text),
-                    location,
-                )
-            text_p = table_cell.find("text:p", namespaces=_OOO_NAMESPACES)
-            if text_p is None:
-                cell_value = ""
-            else:
-                cell_value = text_p.text
+            repeated_count = _ods_repeat_count(table_cell, _NUMBER_COLUMNS_REPEATED, location)
+            text_ps = _findall(table_cell, "text:p", namespaces=_OOO_NAMESPACES)
+            cell_value = "\n".join(_ods_text(text_p, location) for text_p in text_ps)
             row.extend([cell_value] * repeated_count)
             location.advance_cell(repeated_count)
         yield row
